@@ -22,6 +22,9 @@ for p in props:
 specs = []
 for f in sorted(glob.glob(os.path.join(V, 'selftest', 'benign', '*.json'))):
     specs += json.load(open(f))
+# refactorings written by sub-agents that saw only the property text (git diffs against the tree they were written for)
+for f in sorted(glob.glob(os.path.join(V, 'selftest', 'benign', 'patches', '*.diff'))):
+    specs.append(dict(name='patch:' + os.path.basename(f)[:-5], patch=f))
 bad = 0
 results = []
 for m in specs:
@@ -29,7 +32,7 @@ for m in specs:
         continue
     root, dst = thorough.scratch_copy(chk.REPO, 'benign-%d' % os.getpid())
     try:
-        if not thorough.apply_mutant(dst, m):
+        if not (thorough.apply_patch(dst, m['patch']) if 'patch' in m else thorough.apply_mutant(dst, m)):
             print('%-45s STALE (edit no longer applies)' % m['name']); results.append(dict(name=m['name'], state='stale')); continue
         mf = chk.ensure_facts('default', repo=dst, tag='benign')
         if not mf:
